@@ -34,6 +34,11 @@ def slack(rng):
     return bytearray(rng.choice([0, 0, 1, 7]))
 
 
+def count(rng):
+    """descriptor count: mostly 0..3, sometimes enough to push the structure past 255 / 256 bytes"""
+    return rng.randrange(0, 4) if rng.random() < 0.85 else rng.choice([17, 33, 40])
+
+
 # ---- generators: return bytes ---------------------------------------------------------------------------
 
 def g_ReadCapacity10(rng):
@@ -45,12 +50,12 @@ def g_ReadCapacity16(rng):
 
 
 def g_ReportLuns(rng):
-    n = rng.randrange(0, 4)
+    n = count(rng)
     return be(8 * n, 4) + bytearray(4) + b"".join(edge(rng, 8) for _ in range(n)) + slack(rng)
 
 
 def g_GetLBAStatus(rng):
-    n = rng.randrange(0, 4)
+    n = count(rng)
     return be(16 * n + 4, 4) + bytearray(4) + b"".join(edge(rng, 13) + bytearray(3) for _ in range(n)) + slack(rng)
 
 
@@ -65,11 +70,11 @@ def vpd(rng, code, body):
 
 
 def g_Vpd00(rng):
-    return vpd(rng, 0x00, rb(rng, rng.randrange(0, 6)))
+    return vpd(rng, 0x00, rb(rng, rng.choice([0, 1, 2, 5, 260])))
 
 
 def g_Vpd80(rng):
-    return vpd(rng, 0x80, rb(rng, rng.choice([0, 1, 8, 20])))
+    return vpd(rng, 0x80, rb(rng, rng.choice([0, 1, 8, 20, 252, 300])))
 
 
 def g_Vpd86(rng):
@@ -119,7 +124,7 @@ def designator(rng):
 
 
 def g_Vpd83(rng):
-    return vpd(rng, 0x83, b"".join(designator(rng) for _ in range(rng.randrange(0, 4))))
+    return vpd(rng, 0x83, b"".join(designator(rng) for _ in range(count(rng))))
 
 
 def mode_page(rng):
@@ -161,7 +166,7 @@ def tpg(rng):
 
 
 def g_RtpgLen(rng):
-    body = b"".join(tpg(rng) for _ in range(rng.randrange(0, 4)))
+    body = b"".join(tpg(rng) for _ in range(count(rng)))
     return be(len(body), 4) + body + slack(rng)
 
 
@@ -171,7 +176,7 @@ def g_RtpgExt(rng):
 
 
 def g_PrinKeys(rng):
-    n = rng.randrange(0, 4)
+    n = count(rng)
     return edge(rng, 4) + be(8 * n, 4) + b"".join(edge(rng, 8) for _ in range(n)) + slack(rng)
 
 
@@ -202,7 +207,7 @@ def transport_id(rng):
 
 def g_PrinFullStatus(rng):
     body = bytearray()
-    for _ in range(rng.randrange(0, 4)):
+    for _ in range(count(rng) % 20):
         t = transport_id(rng)
         body += edge(rng, 8) + bytearray(4) + edge(rng, 2) + bytearray(4) + edge(rng, 2) + be(len(t), 4) + t
     return edge(rng, 4) + be(len(body), 4) + body + slack(rng)
@@ -221,7 +226,7 @@ def g_ReadElementStatus(rng):
         et = rng.choice([1, 2, 3, 4])
         pv, av = rng.getrandbits(1), rng.getrandbits(1)
         edl = 12 + 36 * pv + 36 * av + rng.choice([0, 4])
-        n = rng.randrange(0, 4)
+        n = count(rng) % 24
         descr = b"".join(edge(rng, edl) for _ in range(n))
         pages += bytearray([et, (pv << 7) | (av << 6)]) + be(edl, 2) + bytearray(1) + be(len(descr), 3) + descr
     return edge(rng, 4) + bytearray(1) + be(len(pages), 3) + pages + slack(rng)
